@@ -118,6 +118,8 @@ func anyTok(x any) string {
 		return "i" + strconv.FormatInt(int64(t), 10)
 	case int64:
 		return "i" + strconv.FormatInt(t, 10)
+	case uint64:
+		return "i" + strconv.FormatUint(t, 10)
 	case float64:
 		if t == math.Trunc(t) && math.Abs(t) < 1<<62 {
 			return "i" + strconv.FormatInt(int64(t), 10)
